@@ -114,10 +114,16 @@ def build_libuv(variant="asan"):
     lib = d / "libuv.a"
     with Locked(CACHE / f"lock-{variant}"):
         if lib.exists():
+            os.utime(d)
             return lib
+        # evict builds of other trees only when they have not been used for a while (checks of
+        # other working trees may be running concurrently)
         for old in CACHE.glob(f"lib-*-{variant}"):
-            if old != d:
-                shutil.rmtree(old, ignore_errors=True)
+            try:
+                if old != d and time.time() - old.stat().st_mtime > 1800:
+                    shutil.rmtree(old, ignore_errors=True)
+            except OSError:
+                pass
         shutil.rmtree(d, ignore_errors=True)
         d.mkdir(parents=True)
         flags = VARIANTS[variant] + CPPFLAGS + ["-std=gnu11", "-fPIC", "-w"]
@@ -198,7 +204,20 @@ class Ctx:
     def require_lean(self, modules, driver=True):
         """Build the property modules (+driver), audit tokens and axioms.
         Records one obligation per theorem of the listed Props modules."""
-        ok, log = self.lake(list(modules) + (["uvdriver"] if driver else []))
+        own = [m for m in [f"Drivers.{self.pid}"] if (LEAN / (m.replace(".", "/") + ".lean")).exists()]
+        ok, log = self.lake(list(modules) + own)
+        if ok and driver:
+            dok, dlog = self.lake(["uvdriver"])
+            if not dok:
+                failed = set(re.findall(r"^- (\S+)", dlog, re.M))
+                mine = {str(p.relative_to(LEAN))[:-5].replace("/", ".") for p in import_closure(list(modules) + own)}
+                exe = LEAN / ".lake/build/bin/uvdriver"
+                if failed and not (failed & mine) and failed != {"uvdriver"} and exe.exists():
+                    # another property's driver module is broken (work in progress elsewhere): this
+                    # property's own modules all built; keep using the last linked driver
+                    self.log("warning: uvdriver not relinked, unrelated modules fail:", sorted(failed))
+                else:
+                    ok, log = False, dlog
         if not ok:
             # find which modules failed
             failed = re.findall(r"^- (\S+)", log, re.M) or ["?"]
